@@ -134,11 +134,10 @@ def check_exact(res, spec, cfg, dirpath, base, who, shared_dir=False):
     """dump / traces of one session against the interpreter's own account."""
     where = f"{who}: {describe(spec, cfg)}"
     for label, dump in (("before", res.dump), ("after", res.dump_after)):
-        if not isinstance(dump, dict) or set(dump) - {"Compute"}:
+        # (other lines / metrics a dump may carry are not the property's business: only the three counts are)
+        if not isinstance(dump, dict):
             raise Violation("dump-shape", f"Metrics.dump() {label} endCollect is {dump!r} -- {where}")
         comp = dump.get("Compute", {})
-        if set(comp) - {"payload_mul", "payload_add", "payload_update"}:
-            raise Violation("dump-shape", f"unexpected metric in {comp!r} ({label} endCollect) -- {where}")
         for name, mine in own_ops(res.counts).items():
             got = comp.get(name, 0)
             if got != mine:
